@@ -90,6 +90,65 @@ CHECKS = {
         "trusts cryptography/pycryptodome verification, vf/cborlite.py; already-signed inputs carry exactly one signature",
         "DESIGN.md section 5 / C09",
     ),
+    "C06": (
+        "exploration",
+        "Hypothesis sequences of encrypt invocations + exhaustive size x algorithm x key-id grid, artifacts read back and decrypted independently (AES-GCM over a verifier-built Enc_structure)",
+        "Every invocation's four files are read back: COSE_Encrypt structure walked with the verifier's CBOR reader (tag 96, AES-GCM-256, "
+        "12-byte IV, direct recipient, bstr-wrapped key id), ciphertext decrypted with `cryptography` under the published IV/protected "
+        "header/tag, digest and size compared with hashlib/len, create() fed with the info as {file} and {raw}; generate-info checked for an "
+        "exact split of the supplied blob. Sequences reuse the output directory like a build directory does.",
+        "trusts AESGCM.decrypt, hashlib, vf/cborlite.py; aes-kw-256 judged for the split/carry clauses only",
+        "DESIGN.md section 5 / C06",
+    ),
+    "C07": (
+        "exploration",
+        "Hypothesis-generated envelope sets/configurations + enumeration of role subsets, hex output read back with independent Intel-HEX and CBOR readers against verifier-held slot tables",
+        "Generated sets (1-11 envelopes, both SoCs, six base addresses, default and generated build configurations incl. default pairs moved "
+        "between roles, exact-fit and one-byte-over envelopes, negatives at every position) run many per process; every output byte is "
+        "accounted for: only the slots of the installed envelopes, each {0:1,1:offset,2:envelope}+0xFF, class UUID at the recorded offset, "
+        "stored envelope = input minus the five severable members and integrated members with members 2/3 byte-identical; rejections leave "
+        "the directory empty. Role subsets: every 8th of the 2047 per SoC in quick, all in thorough.",
+        "trusts vf/ihex.py, vf/cborlite.py and the verifier's transcription of the slot tables; F4 re-encoding finding routed by predicate",
+        "DESIGN.md section 5 / C07",
+    ),
+    "C12": (
+        "exploration",
+        "exhaustive policy and name tables + Hypothesis-generated merge placements (inside, touching, off-by-one overlaps/outside, padding-only overlaps, both orders), hex read back with an independent reader",
+        "generate: 2x2x3 policy table and 70 vendor/class name pairs enumerated, plus random names/addresses/sizes; every output must be exactly "
+        "the 48-byte record (uuid5 computed by the verifier) padded with 0xFF at the address. merge: generated placements of 0-8 records; "
+        "valid placements must give area + sha256(area), placements with any overlap (even in 0xFF padding) or any byte outside must be "
+        "refused without output.",
+        "trusts vf/ihex.py, uuid.uuid5, hashlib",
+        "DESIGN.md section 5 / C12",
+    ),
+    "C13": (
+        "exploration",
+        "Hypothesis-generated name pairs and build configurations; three derivations (manifest, MPI record, boot role mapping) compared with the verifier's uuid5",
+        "For each generated pair the class and vendor identifiers are read from a created manifest, from the MPI record bytes 16..47 and from "
+        "the slot image boot selects under generated SB_CONFIG_SUIT_MPI_* files (incl. near-miss names, collisions with defaults, duplicate "
+        "pairs), all against uuid5(uuid5(DNS, vendor), class) computed by the verifier; pairs the configuration does not name must not be placed.",
+        "trusts uuid.uuid5 and the C07 readers/tables; Kconfig values without quote/backslash/newline",
+        "DESIGN.md section 5 / C13",
+    ),
+    "C14": (
+        "exploration",
+        "rule-based state machine over encrypt histories + multi-process storms (~1.7e5 invocations per quick run) with a union-wide pairwise-distinctness check and independent decryption under each published IV",
+        "Histories interleave same/new plaintext, new Encryptor objects, script re-imports, cmd_encrypt.main and CLI processes; 14 worker "
+        "processes run storms (object reused / fresh per invocation / re-imported); every IV is checked to be the one the ciphertext was "
+        "produced with (independent AES-GCM) and all IVs of the run are compared pairwise in the main process. No randomness test is "
+        "applied; low-entropy IVs are reached by volume (a 32-bit-entropy IV collides with p > 0.99 per quick run).",
+        "trusts AESGCM.decrypt; distinctness only over the histories explored",
+        "DESIGN.md section 5 / C14",
+    ),
+    "C16": (
+        "exploration",
+        "Hypothesis sequences of image update invocations in one process, both hex files read back with an independent Intel-HEX reader",
+        "Sizes at Intel-HEX segment boundaries, addresses 0 / 64 KiB crossings / 16 MiB aligned / top of memory, cache counts 0..16, 1-3 "
+        "invocations per process through cmd_image.main, ImageCreator and the CLI; the storage file must be exactly the LE32 record at the "
+        "info address and the partition file exactly the input bytes at the partition address.",
+        "trusts vf/ihex.py",
+        "DESIGN.md section 5 / C16",
+    ),
 }
 
 NOT_YET = "check under construction in this session; not claimed until its quick command is registered here"
